@@ -61,6 +61,20 @@ theorem named_places_made (stage : Nat) (row : Row) (P : Places)
     (hps : p ≤ stage) : (permute stage row P)[p - 1]? = row[p - 1]? :=
   permute_makes_place stage row P hc p hp h1 hps
 
+/-- **… and the places that are not named swap in pairs**: in a parity-consistent change the bell in an
+unnamed place `p < stage` with an even number of unnamed places before it, and the bell in place
+`p + 1`, change places.  With `named_places_made` this determines the whole row: `permute` *is* the
+change the notation denotes. -/
+theorem unnamed_places_swap (stage : Nat) (row : Row) (P : Places)
+    (hc : Consistent stage P (if implicitLead P then 2 else 1)) (p : Nat) (hp : p ∉ P)
+    (h1 : (if implicitLead P then 2 else 1) ≤ p) (hps : p < stage) (hlen : p < row.length)
+    (hev : unmade P (if implicitLead P then 2 else 1) p % 2 = 0) :
+    (permute stage row P)[p - 1]? = row[p]? ∧ (permute stage row P)[p]? = row[p - 1]? :=
+  permute_swaps_unnamed stage row P hc p hp h1 hps hlen hev
+
+/-- Non-vacuity: `14` on six swaps 2-3 and 5-6. -/
+example : permute 6 [1, 2, 3, 4, 5, 6] [1, 4] = [1, 3, 2, 4, 6, 5] := by decide
+
 /-- The hypothesis is decidable on concrete notations and satisfied by the usual ones, e.g. `14` and
 `1234` on six (and not by the inconsistent `13`). -/
 example : Consistent 6 [1, 4] 1 ∧ Consistent 6 [1, 2, 3, 4] 1 ∧ ¬ Consistent 6 [1, 3] 1 := by
